@@ -127,7 +127,7 @@ func (m *MatchRDP) Match(cx *layer4.Connection) (bool, error) {
 	// Find CRLF which divides token/cookie from RDPNegReq and RDPCorrInfo
 	var RDPNegReqBytesStart uint16 = 0
 	for index, b := range payloadBuf {
-		if b == ASCIIByteCR && payloadBuf[index+1] == ASCIIByteLF {
+		if b == ASCIIByteCR && index+1 < len(payloadBuf) && payloadBuf[index+1] == ASCIIByteLF {
 			RDPNegReqBytesStart = uint16(index) + 2 // start after CR LF
 			break
 		}
